@@ -14,7 +14,7 @@ VHDL_ASSUME = [
     "numeric_std / std_logic_1164 operator semantics are those transcribed in specs/cohdl_semantics.py (no VHDL tool in the sandbox); counterexamples are replayed against the Python code only",
 ]
 
-C05_MODULES = ["contracts.core_models", "contracts.c09_arith", "contracts.c09_bounded", "contracts.c05_convert", "contracts.c05_format_cast", "contracts.c05_setters", "contracts.c05_join", "contracts.c05_castsetter", "contracts.c13_array"]
+C05_MODULES = ["contracts.core_models", "contracts.c09_arith", "contracts.c09_bounded", "contracts.c05_convert", "contracts.c05_format_cast", "contracts.c05_setters", "contracts.c05_join", "contracts.c05_castsetter", "contracts.c13_array", "contracts.c05_arrays"]
 
 C13_MODULES = ["contracts.core_models", "contracts.c09_bounded", "contracts.c13_types", "contracts.c13_views", "contracts.c13_array", "contracts.c13_refspec", "contracts.c13_alias", "contracts.c09_tqparts", "contracts.c05_format_cast", "contracts.c02_ops", "contracts.c08_temporaries", "contracts.c08_cleanup", "contracts.c12_actuals", "contracts.c05_castsetter", "contracts.c12_instances"]
 
@@ -290,14 +290,14 @@ PROPERTIES = {
     "C05": {
         "modules": C05_MODULES + ["contracts.c12_instances"],  # port connections: cohdl.Entity.__init__ (only that contract of the module is tagged C05)
         "level": "proof",
-        "explanation": "acceptance and converted value of every primitive construction / assignment (Unsigned, Signed, BitVector, Bit, BitState) are proved equal to the conversion matrix of the statement for all widths and values; the backend cast selection (format_cast) is proved, for every (target root kind, view, whole/slice, value kind, literal/run-time) combination the front end accepts and all widths, to emit text whose numeric_std type is the declared object's type and whose bits are the converted bits; bit copies are bounded-checked natively; port connections (cohdl.Entity.__init__: same width, same declared vector / scalar type); Array._assign; _Boolean.__init__ accepts exactly the representable literals.",
+        "explanation": "acceptance and converted value of every primitive construction / assignment (Unsigned, Signed, BitVector, Bit, BitState) are proved equal to the conversion matrix of the statement for all widths and values; the backend cast selection (format_cast) is proved, for every (target root kind, view, whole/slice, value kind, literal/run-time) combination the front end accepts and all widths, to emit text whose numeric_std type is the declared object's type and whose bits are the converted bits; bit copies are bounded-checked natively; port connections (cohdl.Entity.__init__: same width, same declared vector / scalar type); Array._assign; _Boolean.__init__ accepts exactly the representable literals; whole-array assignments (next / push / value with Null, Full, list, tuple or array sources): the three setter replacements with an array target and TypeQualifier._perform_array_elem_assignment are under contract (element-wise assignment OF THE SOURCE, never a copy of the target's own placeholder), the emitted statements are evaluated natively for all 6 forms x 5 sources (BOUNDED, contracts.c05_arrays.array_assign_sweep).",
         "assumptions": COMMON_ASSUME + BITLEVEL_ASSUME + VHDL_ASSUME + [
             "the bit-copy part of _assign (Span.apply_zip, bin() round trips) is opaque to the prover and assumed not to raise: acceptance is proved, the stored value is checked by bounded native enumeration only",
             "format_cast lemma assumes the operand text has the VHDL type of the value's CoHDL type (format_value / format_vhdl_cast establish it; format_vhdl_cast is under contract as well)",
             "a backend AssertionError for a pair the front end accepts counts as a compile-time rejection (observed: literal Signed assigned to a .signed view of an Unsigned object)",
             "the setter replacements, _Redirect.__init__, _try_join (join type has the kind of every vector alternative) and the initialisation replacements are under contract; port connection (Entity.__init__ uses a plain `port <<= actual` check) is only covered by the C12 association contract",
         ],
-        "extra": ["contracts.c05_extra.setter_replacements"],
+        "extra": ["contracts.c05_extra.setter_replacements", "contracts.c05_arrays.array_assign_sweep"],
         "canaries": [
             {"name": "cast-resize-width", "contract": "cohdl._compiler.backend.vhdl._vhdl_repr:VhdlScope.format_cast", "case": "Unsigned.unsigned.whole<-Unsigned.tq", "file": "cohdl/_compiler/backend/vhdl/_vhdl_repr.py",
              "old": "                    else:\n                        assert target_type.width > value_type.width\n                        return f\"resize({value_str}, {target_type.width})\"\n                elif issubclass(value_type, Signed):\n                    if issubclass(target_type, Signed):\n                        if target_type.width != value_type.width:\n                            assert target_type.width > value_type.width\n                            value_str = f\"resize({value_str}, {target_type.width})\"\n                    else:\n                        assert target_type.width == value_type.width\n\n                    return f\"unsigned(std_logic_vector({value_str}))\"",
